@@ -1,4 +1,4 @@
-import AcqVerif.Runtime.Basic
+import AcqVerif.Runtime.Init
 /-!
 # M1 — invariants of every reachable state, under every schedule
 
@@ -9,20 +9,39 @@ Each invariant is shown for every action of every thread (`srcActs`, `fltActs`, 
 namespace AcqVerif.Runtime
 open AcqVerif.Channel
 
-theorem mem_clientActs (a : Act RT) (h : a ∈ clientActs) :
-    a ∈ clientBase ∨ (∃ s, a ∈ clientPerStream s) ∨ (∃ s r, a ∈ clientFlush s r) := by
-  unfold clientActs at h
+/-- a statement about every client action follows from the statement for each family -/
+theorem client_families (P : Act RT → Prop) (hb : ∀ a ∈ clientBase, P a)
+    (hmon : ∀ s, ∀ a ∈ clMon s, P a) (hcfg : ∀ s, ∀ a ∈ clCfg s, P a) (hstart : ∀ s, ∀ a ∈ clStart s, P a)
+    (herr : ∀ s, ∀ a ∈ clErr s, P a) (hstop : ∀ s, ∀ a ∈ clStop s, P a) (hacc : ∀ s, ∀ a ∈ clAcc s, P a)
+    (hflush : ∀ s r, ∀ a ∈ clientFlush s r, P a) : ∀ a ∈ clientActs, P a := by
+  intro a h
+  unfold clientActs clientPerStream at h
   simp only [List.mem_append, List.mem_flatMap] at h
   rcases h with (h | ⟨s, _, h⟩) | ⟨s, _, r, _, h⟩
-  · exact Or.inl h
-  · exact Or.inr (Or.inl ⟨s, h⟩)
-  · exact Or.inr (Or.inr ⟨s, r, h⟩)
+  · exact hb a h
+  · rcases h with ((((h | h) | h) | h) | h) | h
+    · exact hmon s a h
+    · exact hcfg s a h
+    · exact hstart s a h
+    · exact herr s a h
+    · exact hstop s a h
+    · exact hacc s a h
+  · exact hflush s r a h
 
 /-! ## how client updates touch a stream -/
 
 @[simp] theorem getS_setPc (rt : RT) (pc : CPc) (s : Nat) : getS (setPc rt pc) s = getS rt s := rfl
 @[simp] theorem getS_popOp (rt : RT) (s : Nat) : getS (popOp rt) s = getS rt s := rfl
 @[simp] theorem getS_getState (rt : RT) (s : Nat) : getS (getState rt) s = getS rt s := rfl
+
+theorem getS_stopAllFilters (rt : RT) (s : Nat) : getS (stopAllFilters rt) s = markFlt (getS rt s) := by
+  unfold stopAllFilters getS
+  by_cases h : s < rt.streams.length
+  · simp [List.getD, h]
+  · simp [List.getD, List.getElem?_eq_none (Nat.le_of_not_lt h)]; rfl
+
+theorem getD_stopAllFilters (rt : RT) (s : Nat) : (stopAllFilters rt).streams.getD s {} = markFlt (rt.streams.getD s {}) :=
+  getS_stopAllFilters rt s
 
 theorem getS_modS (rt : RT) (s s' : Nat) (f : Stream → Stream) :
     getS (modS rt s f) s' = if s = s' ∧ s < rt.streams.length then f (getS rt s) else getS rt s' := by
@@ -42,6 +61,36 @@ theorem all_modS (P : Stream → Prop) (rt : RT) (s : Nat) (f : Stream → Strea
   split
   · exact hf (h s)
   · exact h s'
+
+theorem getD_set' {α : Type} (l : List α) (i j : Nat) (v d : α) :
+    (l.set i v).getD j d = if i = j ∧ i < l.length then v else l.getD j d := by
+  by_cases e : i = j
+  · subst e
+    by_cases h : i < l.length
+    · simp [List.getD, h]
+    · simp [List.getD, h, List.getElem?_eq_none (Nat.le_of_not_lt h)]
+  · simp [List.getD, e]
+
+/-- unfold what a client action does to the streams -/
+macro "client_streams" : tactic =>
+  `(tactic| simp only [getS, modS, setS, setPc, popOp, getState, notifyIf, getD_set', getD_stopAllFilters, markFlt] at *)
+
+set_option hygiene false in
+/-- split `ha : a ∈ [x₁, …, xₙ]` into one goal per action -/
+macro "each_action" h:ident : tactic =>
+  `(tactic| (simp only [List.cons_append, List.nil_append, List.mem_cons, List.mem_nil_iff, or_false] at $h:ident
+             repeat' (first | (rcases $h:ident with rfl | $h:ident) | subst $h:ident)))
+
+set_option hygiene false in
+/-- after `each_action` on a client family: expose which stream record the action rewrites -/
+macro "client_expose" : tactic =>
+  `(tactic| (all_goals (try dsimp only at hg ⊢)
+             all_goals (repeat' split)
+             all_goals (try client_streams)
+             all_goals (repeat' split)
+             all_goals (try client_streams)
+             all_goals (repeat' split)))
+
 
 /-! ## Inv1 — a failed storage is not appended to again -/
 
@@ -70,65 +119,75 @@ theorem StoOk.snk (s : Nat) : ∀ a ∈ snkActs s, ∀ st, a.guard st = true →
   rcases ha with rfl | rfl | rfl | rfl | rfl | rfl | rfl | rfl | rfl | rfl | rfl | rfl | rfl | rfl | rfl | rfl | rfl | rfl | rfl | rfl | rfl | rfl | rfl | rfl <;>
     (refine ⟨?_, ?_, ?_⟩ <;> simp_all [setSnkPc, notifySink])
 
-theorem getD_set' {α : Type} (l : List α) (i j : Nat) (v d : α) :
-    (l.set i v).getD j d = if i = j ∧ i < l.length then v else l.getD j d := by
-  by_cases e : i = j
-  · subst e
-    by_cases h : i < l.length
-    · simp [List.getD, h]
-    · simp [List.getD, h, List.getElem?_eq_none (Nat.le_of_not_lt h)]
-  · simp [List.getD, e]
-
-/-- unfold what a client action does to the streams -/
-macro "client_streams" : tactic =>
-  `(tactic| simp only [getS, modS, setS, setPc, popOp, getState, notifyIf, getD_set'] at *)
 
 
 theorem StoOk.client_base : ∀ a ∈ clientBase, ∀ rt, a.guard rt = true → (∀ s, StoOk (getS rt s)) → ∀ s, StoOk (getS (a.upd rt) s) := by
   intro a ha rt hg h s'
   have hs := h s'
-  simp only [clientBase, List.cons_append, List.nil_append, List.mem_cons, List.mem_nil_iff, or_false] at ha
-  rcases ha with rfl | rfl | rfl | rfl | rfl | rfl | rfl | rfl | rfl | rfl | rfl | rfl | rfl
-  all_goals (dsimp only at hg ⊢)
-  all_goals (repeat' split)
-  all_goals (try client_streams)
-  all_goals (repeat' split)
-  all_goals (try client_streams)
-  all_goals (repeat' split)
+  unfold clientBase at ha
+  each_action ha
+  client_expose
   all_goals (first | (simp_all; done) | exact hs | exact ⟨(h _).1, (h _).2, (h _).3⟩)
 
-theorem StoOk.client_per_stream (s0 : Nat) : ∀ a ∈ clientPerStream s0, ∀ rt, a.guard rt = true → (∀ s, StoOk (getS rt s)) → ∀ s, StoOk (getS (a.upd rt) s) := by
+theorem StoOk.client_clMon (s0 : Nat) : ∀ a ∈ clMon s0, ∀ rt, a.guard rt = true → (∀ s, StoOk (getS rt s)) → ∀ s, StoOk (getS (a.upd rt) s) := by
   intro a ha rt hg h s'
   have hs := h s'
-  simp only [clientPerStream, List.cons_append, List.nil_append, List.mem_cons, List.mem_nil_iff, or_false] at ha
-  rcases ha with rfl | rfl | rfl | rfl | rfl | rfl | rfl | rfl | rfl | rfl | rfl | rfl | rfl | rfl | rfl | rfl | rfl | rfl | rfl | rfl | rfl | rfl | rfl | rfl | rfl | rfl | rfl | rfl | rfl | rfl | rfl | rfl | rfl | rfl | rfl | rfl | rfl | rfl | rfl | rfl | rfl | rfl | rfl | rfl | rfl
-  all_goals (dsimp only at hg ⊢)
-  all_goals (repeat' split)
-  all_goals (try client_streams)
-  all_goals (repeat' split)
-  all_goals (try client_streams)
-  all_goals (repeat' split)
+  unfold clMon at ha
+  each_action ha
+  client_expose
+  all_goals (first | (simp_all; done) | exact hs | exact ⟨(h _).1, (h _).2, (h _).3⟩ | (obtain ⟨a1, a2, a3⟩ := h s0; refine ⟨?_, ?_, ?_⟩ <;> simp_all [notifySink] <;> done) | (obtain ⟨a1, a2, a3⟩ := h s0; refine ⟨?_, ?_, ?_⟩ <;> (unfold setReaderChan; repeat' split) <;> simp_all <;> done))
+
+theorem StoOk.client_clCfg (s0 : Nat) : ∀ a ∈ clCfg s0, ∀ rt, a.guard rt = true → (∀ s, StoOk (getS rt s)) → ∀ s, StoOk (getS (a.upd rt) s) := by
+  intro a ha rt hg h s'
+  have hs := h s'
+  unfold clCfg at ha
+  each_action ha
+  client_expose
+  all_goals (first | (simp_all; done) | exact hs | exact ⟨(h _).1, (h _).2, (h _).3⟩ | (obtain ⟨a1, a2, a3⟩ := h s0; refine ⟨?_, ?_, ?_⟩ <;> simp_all [notifySink] <;> done) | (obtain ⟨a1, a2, a3⟩ := h s0; refine ⟨?_, ?_, ?_⟩ <;> (unfold setReaderChan; repeat' split) <;> simp_all <;> done))
+
+theorem StoOk.client_clStart (s0 : Nat) : ∀ a ∈ clStart s0, ∀ rt, a.guard rt = true → (∀ s, StoOk (getS rt s)) → ∀ s, StoOk (getS (a.upd rt) s) := by
+  intro a ha rt hg h s'
+  have hs := h s'
+  unfold clStart at ha
+  each_action ha
+  client_expose
+  all_goals (first | (simp_all; done) | exact hs | exact ⟨(h _).1, (h _).2, (h _).3⟩ | (obtain ⟨a1, a2, a3⟩ := h s0; refine ⟨?_, ?_, ?_⟩ <;> simp_all [notifySink] <;> done) | (obtain ⟨a1, a2, a3⟩ := h s0; refine ⟨?_, ?_, ?_⟩ <;> (unfold setReaderChan; repeat' split) <;> simp_all <;> done))
+
+theorem StoOk.client_clErr (s0 : Nat) : ∀ a ∈ clErr s0, ∀ rt, a.guard rt = true → (∀ s, StoOk (getS rt s)) → ∀ s, StoOk (getS (a.upd rt) s) := by
+  intro a ha rt hg h s'
+  have hs := h s'
+  unfold clErr at ha
+  each_action ha
+  client_expose
+  all_goals (first | (simp_all; done) | exact hs | exact ⟨(h _).1, (h _).2, (h _).3⟩ | (obtain ⟨a1, a2, a3⟩ := h s0; refine ⟨?_, ?_, ?_⟩ <;> simp_all [notifySink] <;> done) | (obtain ⟨a1, a2, a3⟩ := h s0; refine ⟨?_, ?_, ?_⟩ <;> (unfold setReaderChan; repeat' split) <;> simp_all <;> done))
+
+theorem StoOk.client_clStop (s0 : Nat) : ∀ a ∈ clStop s0, ∀ rt, a.guard rt = true → (∀ s, StoOk (getS rt s)) → ∀ s, StoOk (getS (a.upd rt) s) := by
+  intro a ha rt hg h s'
+  have hs := h s'
+  unfold clStop at ha
+  each_action ha
+  client_expose
+  all_goals (first | (simp_all; done) | exact hs | exact ⟨(h _).1, (h _).2, (h _).3⟩ | (obtain ⟨a1, a2, a3⟩ := h s0; refine ⟨?_, ?_, ?_⟩ <;> simp_all [notifySink] <;> done) | (obtain ⟨a1, a2, a3⟩ := h s0; refine ⟨?_, ?_, ?_⟩ <;> (unfold setReaderChan; repeat' split) <;> simp_all <;> done))
+
+theorem StoOk.client_clAcc (s0 : Nat) : ∀ a ∈ clAcc s0, ∀ rt, a.guard rt = true → (∀ s, StoOk (getS rt s)) → ∀ s, StoOk (getS (a.upd rt) s) := by
+  intro a ha rt hg h s'
+  have hs := h s'
+  unfold clAcc at ha
+  each_action ha
+  client_expose
   all_goals (first | (simp_all; done) | exact hs | exact ⟨(h _).1, (h _).2, (h _).3⟩ | (obtain ⟨a1, a2, a3⟩ := h s0; refine ⟨?_, ?_, ?_⟩ <;> simp_all [notifySink] <;> done) | (obtain ⟨a1, a2, a3⟩ := h s0; refine ⟨?_, ?_, ?_⟩ <;> (unfold setReaderChan; repeat' split) <;> simp_all <;> done))
 
 theorem StoOk.client_flush (s0 r0 : Nat) : ∀ a ∈ clientFlush s0 r0, ∀ rt, a.guard rt = true → (∀ s, StoOk (getS rt s)) → ∀ s, StoOk (getS (a.upd rt) s) := by
   intro a ha rt hg h s'
   have hs := h s'
-  simp only [clientFlush, List.mem_cons, List.mem_nil_iff, or_false] at ha
-  rcases ha with rfl | rfl | rfl | rfl | rfl | rfl | rfl | rfl | rfl | rfl | rfl | rfl
-  all_goals (dsimp only at hg ⊢)
-  all_goals (repeat' split)
-  all_goals (try client_streams)
-  all_goals (repeat' split)
-  all_goals (try client_streams)
-  all_goals (repeat' split)
+  unfold clientFlush at ha
+  each_action ha
+  client_expose
   all_goals (first | (simp_all; done) | exact hs | exact ⟨(h _).1, (h _).2, (h _).3⟩ | (obtain ⟨a1, a2, a3⟩ := h s0; refine ⟨?_, ?_, ?_⟩ <;> simp_all [notifySink] <;> done) | (obtain ⟨a1, a2, a3⟩ := h s0; refine ⟨?_, ?_, ?_⟩ <;> (unfold setReaderChan; repeat' split) <;> simp_all <;> done))
 
-theorem StoOk.client : ∀ a ∈ clientActs, ∀ rt, a.guard rt = true → (∀ s, StoOk (getS rt s)) → ∀ s, StoOk (getS (a.upd rt) s) := by
-  intro a ha
-  rcases mem_clientActs a ha with h | ⟨s, h⟩ | ⟨s, r, h⟩
-  · exact StoOk.client_base a h
-  · exact StoOk.client_per_stream s a h
-  · exact StoOk.client_flush s r a h
+theorem StoOk.client : ∀ a ∈ clientActs, ∀ rt, a.guard rt = true → (∀ s, StoOk (getS rt s)) → ∀ s, StoOk (getS (a.upd rt) s) :=
+  client_families _ StoOk.client_base StoOk.client_clMon StoOk.client_clCfg StoOk.client_clStart StoOk.client_clErr
+    StoOk.client_clStop StoOk.client_clAcc StoOk.client_flush
 
 /-! ## lifting to scheduler steps and reachable states -/
 
@@ -216,14 +275,46 @@ theorem all_setS (P : Stream → Prop) (rt : RT) (s : Nat) (st : Stream) (hst : 
       rw [this]; exact h s
   · rw [getS_setS_other _ _ _ _ e]; exact h s'
 
+/-- **Proof principle, complete**: an invariant that holds in the configured initial state of every scenario and is
+kept by every action of every thread holds in every state that any schedule reaches. -/
+theorem Reach.inv (I : RT → Prop)
+    (h0 : ∀ ring cfgs prog, I (initRT ring cfgs prog))
+    (hsrc : ∀ s, ∀ a ∈ srcActs s, ∀ rt, a.guard (getS rt s) = true → I rt → I (setS rt s (a.upd (getS rt s))))
+    (hflt : ∀ s, ∀ a ∈ fltActs, ∀ rt, a.guard (getS rt s) = true → I rt → I (setS rt s (a.upd (getS rt s))))
+    (hsnk : ∀ s, ∀ a ∈ snkActs s, ∀ rt, a.guard (getS rt s) = true → I rt → I (setS rt s (a.upd (getS rt s))))
+    (hcl : ∀ a ∈ clientActs, ∀ rt, a.guard rt = true → I rt → I (a.upd rt)) :
+    ∀ rt, Reach rt → I rt := by
+  apply RReach.inv IsBoot I
+  · rintro rt ⟨ring, cfgs, prog, rfl⟩
+    exact settleT_inv I clientActs clientParked hcl _ (initRT ring cfgs prog, []) (h0 ring cfgs prog)
+  · exact rtStep_inv I hsrc hflt hsnk hcl
+
+/-- a per-stream invariant: holds for every initial stream, kept by the workers on their own record and by the client -/
+theorem Reach.inv_streams (P : Stream → Prop)
+    (h0 : ∀ ring c, P (initStream ring c)) (hd : P {})
+    (hsrc : ∀ s, ∀ a ∈ srcActs s, ∀ st, a.guard st = true → P st → P (a.upd st))
+    (hflt : ∀ a ∈ fltActs, ∀ st, a.guard st = true → P st → P (a.upd st))
+    (hsnk : ∀ s, ∀ a ∈ snkActs s, ∀ st, a.guard st = true → P st → P (a.upd st))
+    (hcl : ∀ a ∈ clientActs, ∀ rt, a.guard rt = true → (∀ s, P (getS rt s)) → ∀ s, P (getS (a.upd rt) s)) :
+    ∀ rt, Reach rt → ∀ s, P (getS rt s) := by
+  apply Reach.inv (fun rt => ∀ s, P (getS rt s))
+  · intro ring cfgs prog s
+    rw [getS_initRT]; split
+    · exact h0 _ _
+    · exact hd
+  · intro s a ha rt hg h; exact all_setS P rt s _ (hsrc s a ha _ hg (h s)) h
+  · intro s a ha rt hg h; exact all_setS P rt s _ (hflt a ha _ hg (h s)) h
+  · intro s a ha rt hg h; exact all_setS P rt s _ (hsnk s a ha _ hg (h s)) h
+  · exact hcl
+
 /-- **Inv1 holds in every reachable state, under every schedule** -/
-theorem StoOk.reach (init : RT → Prop) (h0 : ∀ rt, init rt → ∀ s, StoOk (getS rt s)) :
-    ∀ rt, RReach init rt → ∀ s, StoOk (getS rt s) := by
-  apply RReach.inv init (fun rt => ∀ s, StoOk (getS rt s)) h0
-  apply rtStep_inv
-  · intro s a ha rt hg h; exact all_setS StoOk rt s _ (StoOk.src s a ha _ hg (h s)) h
-  · intro s a ha rt hg h; exact all_setS StoOk rt s _ (StoOk.flt a ha _ hg (h s)) h
-  · intro s a ha rt hg h; exact all_setS StoOk rt s _ (StoOk.snk s a ha _ hg (h s)) h
+theorem StoOk.reach : ∀ rt, Reach rt → ∀ s, StoOk (getS rt s) := by
+  apply Reach.inv_streams StoOk
+  · intro ring c; cases c <;> exact ⟨by simp [initStream], by simp [initStream], by simp [initStream]⟩
+  · exact ⟨by simp, by simp, by simp⟩
+  · exact StoOk.src
+  · exact StoOk.flt
+  · exact StoOk.snk
   · exact StoOk.client
 
 end AcqVerif.Runtime
